@@ -1081,6 +1081,9 @@ class Interp:
             return ta.a_transpose(args[0])
         if short in ("conj", "conjugate") and len(args) == 1:
             return ta.a_conj(args[0]) if isarr(args[0]) else _conj_s(args[0])
+        if short in ("multiply", "add", "subtract") and len(args) == 2 and not kwargs and \
+                all(isinstance(x, (Array, Expr)) or _is_num(x) for x in args):
+            return ta.a_binop({"multiply": "*", "add": "+", "subtract": "-"}[short], args[0], args[1])
         if short == "tensordot" and len(args) >= 2 and isarr(args[0]) and isarr(args[1]):
             axes = kwargs.get("axes", A(2))
             if axes is None:
